@@ -145,11 +145,9 @@ def build(tier, seed):
         for n_ids in range(1, max_ids + 1):
             cases.append(hier.make_case(spec, n_ids, seed, prior=(n_ids == 2)))
     if tier == 'thorough':
-        # 4-dimensional bottom level (two-parameter error model), single- and
-        # two-part structures
-        for spec in hier.structures(4, ['G', 'LNnc', 'P', 'H', 'Cov(G)']):
-            if spec['kind'] == 'Comp' and len(spec['parts']) > 2:
-                continue
+        # 4-dimensional bottom level (two-parameter error model): every sequence of
+        # sub-models over the 10-kind alphabet
+        for spec in hier.structures(4, hier.KINDS6):
             for n_ids in (1, 2, 3):
                 cases.append(hier.make_case(spec, n_ids, seed, err='CM'))
     # reduced population models: every subset of <= 2 fixed top parameters
